@@ -62,6 +62,24 @@ def gen_cases(ctx):
             muts.append(pc.enc(m))
     add("mutants", muts)
     add("unicode", [pc.enc(pc.unicode_noise(rng, rng.randint(1, 80))) for _ in range(1500 if q else 30000)])
+    # boundary literals and long atoms: integer literals around the machine word sizes (bare, after `#`, in every literal
+    # position), and long names / strings / comments with multi-byte characters at every offset around the lengths at which
+    # code tends to truncate (outline details, messages)
+    lits = ["255", "256", "65535", "65536", "2147483647", "2147483648", "4294967295", "4294967296", "9223372036854775807",
+            "9223372036854775808", "18446744073709551615", "18446744073709551616", "9" * 40, "1" * 400]
+    bl = []
+    for d in lits:
+        for tpl in ["%s", "#%s", "const c = %s\n", "const c = #%s\n", "proc P\n x = %s\nendproc\n", "proc P\n x = #%s + a[%s]\nendproc\n",
+                    "type t : [1..%s]\n", "F : int4 = %s\n", "proc P\n switch x\n when %s..#%s\n endwhen\n endswitch\nendproc\n"]:
+            bl.append(pc.enc(tpl.replace("%s", d)))
+    for n in ([20, 31, 32, 33, 39, 40, 41, 42, 63, 64, 65, 79, 80, 81, 127, 128, 129, 255, 256, 257] if q else range(1, 300)):
+        for ch in ["\u00e9", "\u4e2d", "\U0001f600"]:
+            for off in (0, 1, 2, 3):
+                body = "a" * max(0, n - off) + ch + "b" * off
+                for tpl in ["const cLong = '%s'\n", "const %s = 1\n", "%s : int4\n", "proc %s\nendproc\n", "type %s : int4\n",
+                            ";%s\nconst c = 1\n", "class %s (%s)\n", "proc P(%s : int4)\n var %s : int4\n %s = '%s'\nendproc\n"]:
+                    bl.append(pc.enc(tpl.replace("%s", body)))
+    add("boundaries", bl)
     add("towers", [pc.enc(t) for t in pc.towers(big=True).values()])   # the bounds of the statement (128 levels, 2,000 items) in both tiers
     return cases, hist
 
@@ -168,7 +186,7 @@ def correspondence(ctx, broken_obligations=()):
                    "programs, random Unicode; towers (nesting 128, lists %d); non-trivial = at least 3 characters"
                    % ((4, 4, 3, 2000) if ctx.quick else (5, 5, 4, 2000)))
     cov["exhaustive"] = True
-    cov["samples"] = [pc.dec(cases[90000])[:120], pc.dec(cases[-30])[:200]]
+    cov["samples"] = [pc.dec(cases[90000])[:120], pc.dec(cases[-len(pc.towers(True)) - 30])[:200]]
     return cov
 
 
